@@ -257,8 +257,12 @@ func (fr *Frame) contractCall(st *State, c *ast.CallExpr, fn *types.Func, ct *Co
 			_, wantPtr := sig.Recv().Type().Underlying().(*types.Pointer)
 			_, havePtr := v.Ty.Underlying().(*types.Pointer)
 			if wantPtr && !havePtr {
-				// address of an addressable value: only pointer-typed expressions supported
-				v = fr.unsupported(st, c, "implicit address-of receiver", sig.Recv().Type())
+				if pv, ok := fr.implicitAddr(st, c); ok {
+					v = pv
+				} else {
+					// address of an addressable value: only cell variables are supported
+					v = fr.unsupported(st, c, "implicit address-of receiver", sig.Recv().Type())
+				}
 			} else if !wantPtr && havePtr {
 				v = x.deref(st, v, true)
 			}
@@ -399,7 +403,11 @@ func (fr *Frame) inlineCall(st *State, c *ast.CallExpr, fn *types.Func, decl *as
 				fr.safety(st, "nil-deref", fr.src(c.Fun), c, "(not (= "+v.T+" 0))")
 				v = x.deref(st, v, true)
 			} else if wantPtr && !havePtr {
-				v = fr.unsupported(st, c, "implicit address-of receiver", sig.Recv().Type())
+				if pv, ok := fr.implicitAddr(st, c); ok {
+					v = pv
+				} else {
+					v = fr.unsupported(st, c, "implicit address-of receiver", sig.Recv().Type())
+				}
 			}
 			if o, ok := dpkg.TypesInfo.Defs[decl.Recv.List[0].Names[0]].(*types.Var); ok {
 				x.declVar(st, o, v)
@@ -509,15 +517,21 @@ func (sub *Frame) runBody(st *State, body *ast.BlockStmt, at ast.Node) []Val {
 }
 
 func (fr *Frame) inlineLit(st *State, c *ast.CallExpr, lit *ast.FuncLit, owner *Frame) []Val {
+	var argv []Val
+	for _, a := range c.Args {
+		argv = append(argv, fr.expr(st, a))
+	}
+	return fr.inlineLitArgs(st, c, lit, owner, argv)
+}
+
+// inlineLitArgs executes a function literal with the given argument values (library models
+// that run a callback, e.g. badger's View/Update/Value).
+func (fr *Frame) inlineLitArgs(st *State, c *ast.CallExpr, lit *ast.FuncLit, owner *Frame, argv []Val) []Val {
 	x := fr.x
 	sig := owner.info.Types[lit].Type.(*types.Signature)
 	sub := &Frame{x: x, pkg: owner.pkg, info: owner.info, sig: sig, safe: fr.safe, depth: fr.depth + 1,
 		fnName: owner.fnName + "$lit", inlineStack: fr.inlineStack, contract: owner.contract, specNames: owner.specNames, modsInfo: owner.modsInfo, unitBody: owner.rootBody(), unitLo: owner.unitLo, unitHi: owner.unitHi,
 		loopOrd: map[string]int{}, atOrd: map[string]int{}, closureOrd: map[string]int{}, body: lit.Body}
-	var argv []Val
-	for _, a := range c.Args {
-		argv = append(argv, fr.expr(st, a))
-	}
 	pi := 0
 	if lit.Type.Params != nil {
 		for _, fld := range lit.Type.Params.List {
@@ -570,11 +584,34 @@ func (fr *Frame) builtin(st *State, c *ast.CallExpr, name string) []Val {
 			return []Val{fr.appendSlice(st, s, o, rt)}
 		}
 		cur := s
+		curFmt := x.fmtOf[s.T]
 		for _, a := range c.Args[1:] {
 			v := fr.exprAs(st, a, elemType(rt))
 			id := sortId(v.S)
 			ss := x.u.sliceSort(v.S)
 			cur = x.bind(Val{T: fmt.Sprintf("(mk_%s (store (sarr_%s %s) (slen_%s %s) %s) (+ (slen_%s %s) 1) false)", ss, id, cur.T, id, cur.T, v.T, id, cur.T), S: ss, Ty: rt}, "app")
+			// a constant byte appended to a format-structured string extends its last literal
+			if curFmt != nil {
+				if ch, ok := constInt(v.T); ok && ch > 0 && ch < 128 {
+					nf := &FmtStr{segs: append([]fseg{}, curFmt.segs...)}
+					if n := len(nf.segs); n > 0 && nf.segs[n-1].kind == "lit" {
+						nf.segs[n-1].lit += string(rune(ch))
+					} else {
+						nf.segs = append(nf.segs, fseg{kind: "lit", lit: string(rune(ch))})
+					}
+					curFmt = nf
+				} else {
+					curFmt = nil
+				}
+			}
+		}
+		if curFmt != nil {
+			if len(cur.T) > 48 || cur.T == s.T {
+				n := x.u.fresh("app", cur.S)
+				x.u.fact("(= " + n + " " + cur.T + ")")
+				cur = Val{T: n, S: cur.S, Ty: cur.Ty}
+			}
+			x.setFmt(cur.T, curFmt)
 		}
 		return []Val{cur}
 	case "make":
